@@ -36,8 +36,8 @@ RULE = ('conn arm: 2-3 connections on a DB over FileStorage (simulated '
         'objects changed again later, so that the undo must merge -- in a '
         'multi-undo against a record of the same undo transaction).  '
         'non-trivial = >= 1 resolution attempted; distinct = outcome trace')
-BUDGET = {'quick': {'runs': 5000, 'wall': 300, 'chunk': 25},
-          'thorough': {'runs': 150000, 'wall': 3000, 'chunk': 50}}
+BUDGET = {'quick': {'runs': 10000, 'wall': 300, 'chunk': 25},
+          'thorough': {'runs': 900000, 'wall': 1800, 'chunk': 100}}
 ASSUMPTIONS = [
     'the merge function keeps the references of both sides without '
     'comparing them (PersistentReference objects refuse comparison)',
